@@ -131,7 +131,9 @@ ASM_SNIPPETS = {
     "6502": ["nop", "lda #5"],
 }
 
-SYM_NAMES = ["main", "tab", "L1", "loop_2", "ffh_", "x9", "deadbeef_"]
+SYM_NAMES = ["main", "tab", "L1", "loop_2", "ffh_", "x9", "deadbeef_",
+             # names made only of hexadecimal letters (with and without a final h): a symbol, never a number
+             "dead", "face", "bad", "each", "cafe", "beach", "fab"]
 
 
 REGION_BASES = [0, 0x10, 0x100, 0x200, 0x7ff0, 0x8000, 0xfff0, 0xffff, 0x10000, 0x1fff8, 0x20000, 0x7ffffff0, 0x80000000,
